@@ -48,12 +48,12 @@ Proof. exact (step_not_ok_same e c o c' out). Qed.
 Print Assumptions C06_forged_ack_changes_nothing.
 
 (** with honest clients, "verified" is membership of exactly that value in the consulted counterparty version *)
-Theorem C06_honest_membership other me pf id ph k v :
-  honest_vmem other me pf id ph k v = true ->
+Theorem C06_honest_membership other me pf lh id ph k v :
+  id <> lh -> honest_vmem other me pf lh id ph k v = true ->
   exists t ver snap v',
     consulted me id ph = Some (t, ver) /\ pf = PHonest ver k /\
     assocN ver (w_vers other) = Some snap /\ lookup snap k = Some v' /\ pval_eqb v v' = true.
-Proof. exact (honest_membership other me pf id ph k v). Qed.
+Proof. exact (honest_membership other me pf lh id ph k v). Qed.
 Print Assumptions C06_honest_membership.
 
 (** non-vacuity: a concrete state satisfies the invariant and a concrete 13-step history (duplicates, a failing
